@@ -23,7 +23,12 @@ def run_rules(prop, program, tier):
     mod = importlib.import_module(f"sa.props.{prop.lower()}")
     ctx = report.Ctx(prop, program, tier)
     for rule in mod.RULES:
-        rule(ctx)
+        try:
+            rule(ctx)
+        except Inconclusive as e:   # one rule group cannot decide: the others still run
+            ctx.rule_errors.append(("inconclusive", f"{rule.__name__}: {e}"))
+        except AnalysisError as e:
+            ctx.rule_errors.append(("error", f"{rule.__name__}: {e}"))
     return mod, ctx
 
 
@@ -32,6 +37,12 @@ def analyse(prop, sources, tier="quick"):
     try:
         p = Program(sources)
         mod, ctx = run_rules(prop, p, tier)
+        if not ctx.findings:   # a violation found by any rule takes priority over an undecided / vacuous rule
+            if ctx.rule_errors:
+                kinds = {k for k, _ in ctx.rule_errors}
+                return ("inconclusive" if kinds == {"inconclusive"} else "error"), [], None, "; ".join(m for _, m in ctx.rule_errors)
+            if ctx.floor_errors:
+                return "error", [], None, "; ".join(ctx.floor_errors)
         return "ok", ctx.findings, ctx, None
     except Inconclusive as e:
         return "inconclusive", [], None, str(e)
